@@ -103,7 +103,7 @@ Step ==
        ELSE IF e.verb = "export_cols"
             THEN /\ tabs' = tabs
                  /\ verdict' = IF e.names # Tab(e.in).names THEN "export-columns"
-                               ELSE IF e.dts # <<>> /\ ~ExportAgree(e.dts, Tab(e.in).dts, e.backend) THEN "export-dtype" ELSE "ok"
+                               ELSE IF e.dts # <<>> /\ ~ExportAgree(e.dts, Tab(e.in).dts, Tab(e.in).backend) THEN "export-dtype" ELSE "ok"
        ELSE IF e.err # "" \/ e.out = 0 \/ e.verb \notin Modelled
             THEN tabs' = tabs /\ verdict' = "ok"          \* error path / observation: the input stays as it is
        ELSE IF e.in2 # 0 /\ ~Known(e.in2) THEN tabs' = tabs /\ verdict' = "unknown-input"
@@ -111,7 +111,9 @@ Step ==
                 c == Clause(e, X)
             IN /\ verdict' = IF c = "" THEN "ok" ELSE c
                \* continue from the LOGGED state so that one divergence does not hide what follows
-               /\ tabs' = Put(e.out, [dts |-> e.dts, backend |-> e.backend] @@ [X EXCEPT !.names = e.names, !.part = e.part])
+               \* a table collected from a SQL back end holds the frame that back end exported: it stays typed "up to the numeric family"
+               /\ tabs' = Put(e.out, [dts |-> e.dts, backend |-> IF Tab(e.in).backend # "polars" THEN Tab(e.in).backend ELSE e.backend]
+                                      @@ [X EXCEPT !.names = e.names, !.part = e.part])
     /\ l' = IF verdict' = "ok" THEN l + 1 ELSE l
     /\ tid' = tid
 
